@@ -80,7 +80,8 @@ func errorPropagation(ex *Exec, frm *frame, name, g string, res []Val) {
 	n := 0
 	for i := range ex.trace {
 		ev := &ex.trace[i]
-		if ev.Kind != "call" || ev.Depth != 0 || ev.Res == nil {
+		// calls made by inlined helpers count as well: their errors have to reach this function's result too
+		if ev.Kind != "call" || ev.Res == nil {
 			continue
 		}
 		var ce string
@@ -142,7 +143,7 @@ func buildC17(p *Program, tier string) ([]*Unit, []UnitError) {
 	units, errs = append(units, us...), append(errs, es...)
 	// (2) the other functions on the way from the resolver calls to the entry points
 	for _, key := range []string{
-		fd("resolvePath"), fd("decorateSelectorExpr"), fd("decorateObject"), fd("decorateScope"), fd("fragment"), fd("link"), fd("addNodeFragments"),
+		fr("updateImports"), fd("resolvePath"), fd("decorateSelectorExpr"), fd("decorateObject"), fd("decorateScope"), fd("fragment"), fd("link"), fd("addNodeFragments"),
 		pkgDecorator + ".(*Decorator).ParseDir", pkgDecorator + ".Parse", pkgDecorator + ".ParseFile", pkgDecorator + ".ParseDir", pkgDecorator + ".Decorate", pkgDecorator + ".DecorateFile", pkgDecorator + ".Print",
 		pkgDecorator + ".(*Decorator).DecorateNode", pkgDecorator + ".(*Decorator).DecorateFile", pkgDecorator + ".(*Decorator).ParseFile", pkgDecorator + ".(*Decorator).Parse",
 		fr("RestoreFile"), pkgDecorator + ".(*Restorer).RestoreFile", pkgDecorator + ".(*Restorer).Fprint", fr("Fprint"),
@@ -323,6 +324,40 @@ func buildC17(p *Program, tier string) ([]*Unit, []UnitError) {
 				if cal := c.Call.StaticCallee(); cal != nil && cal.String() == "fmt.Errorf" {
 					if f, isC := c.Call.Args[0].(*ssa.Const); isC && strings.Contains(constantStringVal(f), "%w") {
 						ok = true
+					}
+				}
+			}
+			if !ok {
+				// the error of a helper of this package handed on unchanged: the semantic rule (#errors:propagated on the
+				// updateImports unit, which follows inlined helpers) decides whether it wraps the resolver's error
+				fromHelper := func(x ssa.Value) bool {
+					var c *ssa.Call
+					switch y := x.(type) {
+					case *ssa.Extract:
+						c, _ = y.Tuple.(*ssa.Call)
+					case *ssa.Call:
+						c = y
+					}
+					if c == nil {
+						return false
+					}
+					cal := c.Call.StaticCallee()
+					return cal != nil && cal.Pkg == fn.Pkg
+				}
+				if fromHelper(v) {
+					ok = true
+				} else if ld, isLd := v.(*ssa.UnOp); isLd {
+					if a, isA := ld.X.(*ssa.Alloc); isA {
+						n, good := 0, 0
+						for _, rf := range *a.Referrers() {
+							if st, isSt := rf.(*ssa.Store); isSt && st.Addr == ssa.Value(a) {
+								n++
+								if fromHelper(st.Val) {
+									good++
+								}
+							}
+						}
+						ok = n > 0 && n == good
 					}
 				}
 			}
